@@ -37,6 +37,7 @@ type LoopSpec struct {
 	Dec       *Clause
 	Splits    []Clause
 	SplitVars []Clause // case split on the skolemised bound variable of quantified invariants (inv-keep)
+	Snaps     [][2]string // ghost snapshots taken at loop entry: name, expression text
 }
 
 type Contract struct {
@@ -60,6 +61,8 @@ type Contract struct {
 	Pure         bool
 	Witness      []string
 	ReadOnlyHeap bool
+	UseLemmas    []Clause // use-lemma name(args): instantiated at the normal exit before the ensures are checked
+	WitnessFrom  map[string]string // witness name -> callee contract that supplies it
 	FreshResult  bool
 	decl         *ast.FuncDecl
 }
@@ -324,7 +327,7 @@ func (e *Engine) scanGlobals() {
 var clauseKeywords = map[string]bool{"func": true, "theorem": true, "global": true, "props": true, "requires": true,
 	"ensures": true, "panics": true, "modifies": true, "decreases": true, "yields": true, "loop": true, "invariant": true,
 	"let": true, "split": true, "mode": true, "established-by": true, "thin": true, "trusted": true, "assert": true,
-	"ensures-notrace": true, "modifies-heap": true, "witness": true, "callback": true, "readonly-heap": true, "fresh-result": true, "pure": true, "splitvar": true}
+	"ensures-notrace": true, "modifies-heap": true, "witness": true, "callback": true, "readonly-heap": true, "fresh-result": true, "pure": true, "splitvar": true, "snapshot": true, "use-lemma": true}
 
 type rawClause struct {
 	kw   string
@@ -467,14 +470,35 @@ func (e *Engine) loadContracts() error {
 						}
 					case "pure":
 						cur.Pure = true
+					case "snapshot":
+						parts := strings.SplitN(rc.text, ":=", 2)
+						if len(parts) != 2 || curLoop == nil {
+							return perr(fmt.Errorf("snapshot needs `name := expr` inside a loop block"))
+						}
+						curLoop.Snaps = append(curLoop.Snaps, [2]string{strings.TrimSpace(parts[0]), strings.TrimSpace(parts[1])})
 					case "fresh-result":
 						cur.FreshResult = true
 					case "readonly-heap":
 						cur.ReadOnlyHeap = true
 					case "callback":
 						cur.Modifies["callback:"+strings.TrimSpace(rc.text)] = true
+					case "use-lemma":
+						ex, err := parseSpec(rc.text)
+						if err != nil {
+							return perr(err)
+						}
+						cur.UseLemmas = append(cur.UseLemmas, Clause{Text: rc.text, E: ex, Line: e.fset.Position(rc.pos).String()})
 					case "witness":
-						cur.Witness = append(cur.Witness, strings.Fields(strings.ReplaceAll(rc.text, ",", " "))...)
+						fs := strings.Fields(strings.ReplaceAll(rc.text, ",", " "))
+						if len(fs) == 3 && fs[1] == "from" {
+							cur.Witness = append(cur.Witness, fs[0])
+							if cur.WitnessFrom == nil {
+								cur.WitnessFrom = map[string]string{}
+							}
+							cur.WitnessFrom[fs[0]] = fs[2]
+						} else {
+							cur.Witness = append(cur.Witness, fs...)
+						}
 					case "modifies-heap":
 						cur.ModifiesHeap = append(cur.ModifiesHeap, strings.Fields(strings.ReplaceAll(rc.text, ",", " "))...)
 					case "let":
@@ -590,9 +614,21 @@ func (e *Engine) findDecl(ct *Contract) *ast.FuncDecl {
 // witnessType finds the type of the local variable named w declared in the
 // body of the contract's function (witness clause).
 func (e *Engine) witnessType(ct *Contract, w string) types.Type {
+	if from, ok := ct.WitnessFrom[w]; ok {
+		if cc := e.contracts[ct.Pkg.name+"."+from]; cc != nil && cc != ct {
+			return e.witnessType(cc, w)
+		}
+	}
 	fd := e.findDecl(ct)
 	if fd == nil {
 		return nil
+	}
+	for _, ls := range ct.Loops {
+		for _, sn := range ls.Snaps {
+			if sn[0] == w {
+				w = sn[1] // a ghost snapshot of a local: same type as that local
+			}
+		}
 	}
 	var t types.Type
 	ast.Inspect(fd.Body, func(n ast.Node) bool {
